@@ -129,8 +129,18 @@ func (cache *StorageCache) Update(root common.Hash) (common.Hash, error) {
 		}
 	}
 
-	return tr.Hash(), nil
+	hash := tr.Hash()
+	// There was no trie and nothing was stored (the writes were reverted, only their undo records are left in dirty).
+	// The root must stay empty, or a node which reverted the writes publishes a root change which the other nodes don't have
+	if root == (common.Hash{}) && hash == emptyStorageRoot {
+		cache.trie = nil
+		return common.Hash{}, nil
+	}
+	return hash, nil
 }
+
+// emptyStorageRoot is the root hash of a trie without any entry
+var emptyStorageRoot = common.HexToHash("56e81f171bcc55a6ff8345e692c0f86e5b48e01b996cadc001622fb5e363b421")
 
 func (cache *StorageCache) SetState(key common.Hash, value []byte) error {
 	cache.cached[key] = value
